@@ -11,7 +11,8 @@ rm -f go.sum.repo
 mkdir -p "$V/.bin"
 go build -o "$V/.bin/vinstr" ./cmd/vinstr
 OV="$V/.bin/overlay"
-if "$V/.bin/vinstr" -repo /repo -shim "$V/shim" -out "$OV" && go build -overlay "$OV/overlay.json" -tags verifx -o "$V/.bin/vcheck" ./cmd/vcheck; then
+if "$V/.bin/vinstr" -repo /repo -shim "$V/shim" -out "$OV" && go build -overlay "$OV/overlay.json" -tags verifx -o "$V/.bin/vcheck" ./cmd/vcheck \
+   && (cd /repo && go build -overlay "$OV/overlay.json" -o "$V/.bin/csvq-verif" .); then
   echo "$V/.bin/vcheck"
   exit 0
 fi
